@@ -152,6 +152,7 @@ func History() {
 	if err != nil {
 		panic("harness spokfile does not parse: " + err.Error())
 	}
+	killedEarlier = false
 	crashStep := -1
 	if allowCrash {
 		crashStep = sym.Int("crashstep", -1, steps-1)
@@ -332,6 +333,9 @@ func History() {
 				sym.Observe("error"+tag, rerr.Error())
 			}
 		}
+		if crashed {
+			killedEarlier = true
+		}
 	}
 }
 
@@ -340,10 +344,17 @@ const (
 	forced = "the-run-was-forced"
 )
 
+// killedEarlier: an earlier step of the current history was killed. Any wrong skip after that
+// is C10's business whatever the ghost state says about the task's last success.
+var killedEarlier bool
+
 func staleID(what string, prev *inputs) string {
 	id := "C01/skipped-but-" + what
 	if prev != nil && prev.why == killed {
 		return "C10/skipped-on-stale-digest-after-a-killed-run"
+	}
+	if killedEarlier {
+		return "C10/wrongly-skipped-after-a-killed-run/" + what
 	}
 	if prev != nil && prev.why != "" {
 		id = "C01/skipped-on-stale-digest/last-success-not-recorded-because-" + prev.why
@@ -356,6 +367,8 @@ func sameAssert(cur inputs, prev *inputs, task string) bool {
 	id := "C01/skipped-although-inputs-differ-from-last-success"
 	if prev.why == killed {
 		id = "C10/skipped-on-stale-digest-after-a-killed-run"
+	} else if killedEarlier {
+		id = "C10/wrongly-skipped-after-a-killed-run/inputs-differ-from-last-success"
 	} else if prev.why != "" {
 		id = "C01/skipped-on-stale-digest/last-success-not-recorded-because-" + prev.why
 	}
